@@ -229,10 +229,15 @@ func SharedRequestFile(pkg, goName string) *spec.File {
 		{Name: "NoteRef", Fields: []*spec.Field{spec.F("note_id", 1, spec.String), spec.F("rev", 2, spec.Int64).Q("rev")}},
 		{Name: "OrgRef", Fields: []*spec.Field{spec.F("org_id", 1, spec.String), spec.F("note_id", 2, spec.String), spec.F("dry_run", 3, spec.Bool).Q("dry_run")}},
 		{Name: "Note", Fields: []*spec.Field{spec.F("note_id", 1, spec.String), spec.F("text", 2, spec.String)}},
+		// used by a body verb FIRST and by bodiless verbs afterwards (the other messages: bodiless first)
+		{Name: "TagRef", Fields: []*spec.Field{spec.F("tag_id", 1, spec.String), spec.F("limit", 2, spec.Int32).Q("limit"), spec.F("q", 3, spec.String).Q("q"), spec.F("exact", 4, spec.Bool).Q("exact")}},
 	}
 	in := func(m string) string { return "." + pkg + "." + m }
 	f.Services = []*spec.Service{
 		{Name: "NoteService", BasePath: spec.S("/v1"), Methods: []*spec.Method{
+			{Name: "RetagAll", In: in("TagRef"), Out: in("Note"), HTTP: &spec.HTTP{Path: "/tags/{tag_id}/retag", Verb: 2}},
+			{Name: "FindByTag", In: in("TagRef"), Out: in("Note"), HTTP: &spec.HTTP{Path: "/tags/{tag_id}", Verb: 1}},
+			{Name: "DropTag", In: in("TagRef"), Out: in("Note"), HTTP: &spec.HTTP{Path: "/tags/{tag_id}", Verb: 4}},
 			{Name: "GetNote", In: in("NoteRef"), Out: in("Note"), HTTP: &spec.HTTP{Path: "/notes/{note_id}", Verb: 1}},
 			{Name: "DeleteNote", In: in("NoteRef"), Out: in("Note"), HTTP: &spec.HTTP{Path: "/notes/{note_id}", Verb: 4}},
 			{Name: "TouchNote", In: in("NoteRef"), Out: in("Note"), HTTP: &spec.HTTP{Path: "/notes/{note_id}/touch", Verb: 2}},
@@ -242,6 +247,8 @@ func SharedRequestFile(pkg, goName string) *spec.File {
 		{Name: "ArchiveService", BasePath: spec.S("/v1/archive"), Methods: []*spec.Method{
 			{Name: "DropOrgNote", In: in("OrgRef"), Out: in("Note"), HTTP: &spec.HTTP{Path: "/orgs/{org_id}/notes/{note_id}", Verb: 4}},
 			{Name: "PeekNote", In: in("NoteRef"), Out: in("Note"), HTTP: &spec.HTTP{Path: "/notes/{note_id}", Verb: 1}},
+			{Name: "PatchTag", In: in("TagRef"), Out: in("Note"), HTTP: &spec.HTTP{Path: "/tags/{tag_id}", Verb: 5}},
+			{Name: "PeekTag", In: in("TagRef"), Out: in("Note"), HTTP: &spec.HTTP{Path: "/tags/{tag_id}", Verb: 1}},
 		}},
 	}
 	return f
